@@ -1625,7 +1625,10 @@ func (d *decoderJsonBytes) kInterfaceNaked(f *decFnInfo) (rvn reflect.Value) {
 		if bytes == nil {
 
 			if bfn == nil {
+
+				d.depthIncr()
 				d.decode(&re.Value)
+				d.depthDecr()
 				rvn = rv4iptr(&re).Elem()
 			} else if bfn.ext == SelfExt {
 				rvn = rvZeroAddrK(bfn.rt, bfn.rt.Kind())
@@ -5789,7 +5792,10 @@ func (d *decoderJsonIO) kInterfaceNaked(f *decFnInfo) (rvn reflect.Value) {
 		if bytes == nil {
 
 			if bfn == nil {
+
+				d.depthIncr()
 				d.decode(&re.Value)
+				d.depthDecr()
 				rvn = rv4iptr(&re).Elem()
 			} else if bfn.ext == SelfExt {
 				rvn = rvZeroAddrK(bfn.rt, bfn.rt.Kind())
